@@ -35,6 +35,7 @@ struct Op {
         uint8_t task = 0;
         uint8_t nocheck = 0;
         int32_t a = 0, b = 0;
+        uint32_t pre = 0; // C17 L2: pre-empt this op's library call after `pre` instructions and run the next op (another task) there
         std::vector<JobSpec> jobs;
 };
 
